@@ -146,7 +146,7 @@ class Planner:
         return steps
 
 
-def run_session(exe, steps, eof=False, sync_timeout=120, capture=None):
+def run_session(exe, steps, eof=False, sync_timeout=120, capture=None, strict_bestmove=True):
     """drives the real binary through the planned history; returns the list of discrepancies"""
     problems = []
     note = problems.append
@@ -207,7 +207,7 @@ def run_session(exe, steps, eof=False, sync_timeout=120, capture=None):
             else:
                 note(f"bestmove {mv} without a pending go (after `{cmd[:40]}`)")
         if st["join"] and pending is not None:
-            if pending[1]:
+            if pending[1] and strict_bestmove:
                 note(f"`{cmd[:40]}` joined the running search of {pending[0]} but no bestmove was printed")
             pending = None
         if first == "go":
@@ -243,7 +243,7 @@ def run_session(exe, steps, eof=False, sync_timeout=120, capture=None):
                     if mv not in pending[1]:
                         note(f"bestmove {mv} at exit is not legal in {pending[0]}")
                     pending = None
-        if pending is not None and pending[1]:
+        if pending is not None and pending[1] and strict_bestmove:
             note(f"the go on {pending[0]} was never answered by a bestmove")
     else:
         eng.close(5)
@@ -340,7 +340,10 @@ def garbage_lines(rnd, n):
         elif k == 1:
             out.append("position fen " + rnd.choice(["", "8/8/8/8/8/8/8/8", "8/8/8/8/8/8/8/" + "8" * 32 + " w - - 0 1", "rnbqkbnr/pppppppp/8/8/8/8/PPPPPPPP/RNBQKBNR w KQkq - 0 99999999999999999999", "x y z"]))
         elif k == 2:
-            out.append("go " + rnd.choice(["depth", "depth x", "depth -1", "movetime", "movetime 99999999999", "movetime -5", "wtime 100", "depth 1 movetime", "infinite"]))
+            out.append("go " + rnd.choice(["depth", "depth x", "depth -1", "movetime", "movetime 99999999999", "movetime -5", "movetime -50", "movetime -2147483648",
+                                           "movetime 2147483647", "movetime 0", "depth 0", "depth 18446744073709551615", "depth 1 movetime -1", "movetime 1 depth 1",
+                                           "wtime 100", "depth 1 movetime", "infinite"]))
+            out.append("stop")
         elif k == 3:
             out.append("position " + rnd.choice(["", "moves", "startpos moves", "fen", "startposx", "startpos moves e2e4 e2e4"]))
         elif k == 4:
